@@ -8,7 +8,7 @@ import re
 import cfgpaths
 from rules import emailfn, eavobj
 from rules.eavobj import CONVERTERS, BACKENDS
-from rules.c04 import conv_output
+from rules.c04 import conv_output, out_end
 from report import AnalysisBroken
 
 LEVEL = 'other'
@@ -73,7 +73,7 @@ def run(ck):
                 if p.ret()[1] != '-EEAV_IDN_ERROR': extra.append(f'path without is_ascii_domain returns {p.ret()[1]}')
                 continue
             out = conv_output(conv[-1])          # the conversion whose output is used (a retry makes a second call)
-            got.add(trace(p, out, f'({out} + strlen#1)', p.events.index(a[0]), p.ret()[1]))
+            got.add(trace(p, out, out_end(p, out), p.events.index(a[0]), p.ret()[1]))
         only_ref = sorted(ref - got); only_got = sorted(got - ref)
         r1.instance(k + ':is_utf8_domain', ok=not only_ref and not only_got, wclass='pipeline-differs',
                     what=f'pipelines differ: only in the ASCII modes: {only_ref[:2]}; only in is_utf8_domain: {only_got[:2]}', detail={'ascii_only': only_ref, 'utf8_only': only_got})
